@@ -190,7 +190,7 @@ def run(ck, F, tier):
             why_ip = "rows visited: %r" % (d[1],)
     ck.inst("S3", "encode:initial-parity", ok_ip, fi[0].site if fi else eb.span, why_ip[:400])
     # S3: accumulate loop
-    acc = staircase.accepted_set(F)
+    acc = staircase.accepted_set(F, ck, "S3")
     asg = [e for e in te.events if e.callee == "<assign>" and e.loops]
     ok3 = False
     why = "no accumulate loop found in the Staircase arm"
